@@ -128,6 +128,12 @@ def run(ctx, rep) -> None:
     oscs = once_scenarios(ctx.seed, 120 if ctx.quick else 2500)
     with ProcessPoolExecutor(16) as ex:
         otr = list(ex.map(once_case, oscs, chunksize=4))
+    # two plain resume handlers, a resume cycle superseded by an update (the scenarios of C14, judged here for the cycle clauses)
+    from vf.props import C14
+    rtr = list(ProcessPoolExecutor(16).map(C14.resume_case, C14.resume_scenarios(ctx.seed, 60 if ctx.quick else 1200), chunksize=4))
+    for t in rtr:
+        t['perprocess'] = []
+    otr += rtr
     ov = judge_once(otr, rep)
     rep.evaluations += len(otr); rep.traces += len(otr)
     for t in otr:
